@@ -438,6 +438,90 @@ theorem sat_asymPrim (env : Env) (k : Nat) : Sat n W (asymPrim env k) (fun _ => 
 
 macro_rules | `(tactic| sat_rule) => `(tactic| with_reducible exact sat_asymPrim _ _)
 
+theorem sat_encryptPublicKeyRSAPKCS1v15 (env : Env) (k : Nat) (pt : Slice) (key : Key) :
+    Sat n W (encryptPublicKeyRSAPKCS1v15 env k pt key) (fun _ => True) := by
+  unfold encryptPublicKeyRSAPKCS1v15
+  sat_auto
+
+macro_rules | `(tactic| sat_rule) => `(tactic| with_reducible exact sat_encryptPublicKeyRSAPKCS1v15 _ _ _ _)
+
+theorem sat_encryptPublicKeyRSAOAEP (env : Env) (k : Nat) (pt : Slice) (key : Key) (label : Slice) :
+    Sat n W (encryptPublicKeyRSAOAEP env k pt key label) (fun _ => True) := by
+  unfold encryptPublicKeyRSAOAEP
+  sat_auto
+
+macro_rules | `(tactic| sat_rule) => `(tactic| with_reducible exact sat_encryptPublicKeyRSAOAEP _ _ _ _ _)
+
+theorem sat_decryptPrivateKeyRSAPKCS1v15 (env : Env) (k : Nat) (ct : Slice) (key : Key) :
+    Sat n W (decryptPrivateKeyRSAPKCS1v15 env k ct key) (fun _ => True) := by
+  unfold decryptPrivateKeyRSAPKCS1v15
+  sat_auto
+
+macro_rules | `(tactic| sat_rule) => `(tactic| with_reducible exact sat_decryptPrivateKeyRSAPKCS1v15 _ _ _ _)
+
+theorem sat_decryptPrivateKeyRSAOAEP (env : Env) (k : Nat) (ct : Slice) (key : Key) (label : Slice) :
+    Sat n W (decryptPrivateKeyRSAOAEP env k ct key label) (fun _ => True) := by
+  unfold decryptPrivateKeyRSAOAEP
+  sat_auto
+
+macro_rules | `(tactic| sat_rule) => `(tactic| with_reducible exact sat_decryptPrivateKeyRSAOAEP _ _ _ _ _)
+
+theorem sat_signPrivateKeyRSAPKCS1v15 (env : Env) (k : Nat) (d : Slice) (key : Key) :
+    Sat n W (signPrivateKeyRSAPKCS1v15 env k d key) (fun _ => True) := by
+  unfold signPrivateKeyRSAPKCS1v15
+  sat_auto
+
+macro_rules | `(tactic| sat_rule) => `(tactic| with_reducible exact sat_signPrivateKeyRSAPKCS1v15 _ _ _ _)
+
+theorem sat_signPrivateKeyRSAPSS (env : Env) (k : Nat) (d : Slice) (key : Key) :
+    Sat n W (signPrivateKeyRSAPSS env k d key) (fun _ => True) := by
+  unfold signPrivateKeyRSAPSS
+  sat_auto
+
+macro_rules | `(tactic| sat_rule) => `(tactic| with_reducible exact sat_signPrivateKeyRSAPSS _ _ _ _)
+
+theorem sat_signPrivateKeyECDSA (env : Env) (k : Nat) (d : Slice) (key : Key) :
+    Sat n W (signPrivateKeyECDSA env k d key) (fun _ => True) := by
+  unfold signPrivateKeyECDSA
+  sat_auto
+
+macro_rules | `(tactic| sat_rule) => `(tactic| with_reducible exact sat_signPrivateKeyECDSA _ _ _ _)
+
+theorem sat_signPrivateKeyEdDSA (env : Env) (k : Nat) (d : Slice) (key : Key) :
+    Sat n W (signPrivateKeyEdDSA env k d key) (fun _ => True) := by
+  unfold signPrivateKeyEdDSA
+  sat_auto
+
+macro_rules | `(tactic| sat_rule) => `(tactic| with_reducible exact sat_signPrivateKeyEdDSA _ _ _ _)
+
+theorem sat_verifyPublicKeyRSAPKCS1v15 (env : Env) (d sg : Slice) (key : Key) :
+    Sat n W (verifyPublicKeyRSAPKCS1v15 env d sg key) (fun _ => True) := by
+  unfold verifyPublicKeyRSAPKCS1v15
+  sat_auto
+
+macro_rules | `(tactic| sat_rule) => `(tactic| with_reducible exact sat_verifyPublicKeyRSAPKCS1v15 _ _ _ _)
+
+theorem sat_verifyPublicKeyRSAPSS (env : Env) (d sg : Slice) (key : Key) :
+    Sat n W (verifyPublicKeyRSAPSS env d sg key) (fun _ => True) := by
+  unfold verifyPublicKeyRSAPSS
+  sat_auto
+
+macro_rules | `(tactic| sat_rule) => `(tactic| with_reducible exact sat_verifyPublicKeyRSAPSS _ _ _ _)
+
+theorem sat_verifyPublicKeyECDSA (env : Env) (d sg : Slice) (key : Key) :
+    Sat n W (verifyPublicKeyECDSA env d sg key) (fun _ => True) := by
+  unfold verifyPublicKeyECDSA
+  sat_auto
+
+macro_rules | `(tactic| sat_rule) => `(tactic| with_reducible exact sat_verifyPublicKeyECDSA _ _ _ _)
+
+theorem sat_verifyPublicKeyEdDSA (env : Env) (d sg : Slice) (key : Key) :
+    Sat n W (verifyPublicKeyEdDSA env d sg key) (fun _ => True) := by
+  unfold verifyPublicKeyEdDSA
+  sat_auto
+
+macro_rules | `(tactic| sat_rule) => `(tactic| with_reducible exact sat_verifyPublicKeyEdDSA _ _ _ _)
+
 theorem sat_encryptPublicKey (env : Env) (k : Nat) (pt : Slice) (alg : String) (key : Key) (ad : Slice) :
     Sat n W (encryptPublicKey env k pt alg key ad) (fun _ => True) := by
   unfold encryptPublicKey
@@ -473,6 +557,13 @@ theorem sat_decrypt (env : Env) (k : Nat) (ct : Slice) (alg : String) (key : Key
     Sat n W (decrypt .fixed env k ct alg key nonce tag ad) (fun _ => True) := by
   unfold decrypt
   sat_auto
+
+theorem sat_parseSymmetricKey (env : Env) (raw : Slice) :
+    Sat n W (parseSymmetricKey env raw) (fun _ => True) := by
+  unfold parseSymmetricKey
+  sat_auto
+
+macro_rules | `(tactic| sat_rule) => `(tactic| with_reducible exact sat_parseSymmetricKey _ _)
 
 theorem sat_parseKey (env : Env) (raw : Slice) (ctype : String) :
     Sat n W (parseKey env raw ctype) (fun _ => True) := by
